@@ -88,7 +88,8 @@ class Typer:
             if a[0] == 'arr' and b[0] == 'arr' and len(a[1]) == len(b[1]):
                 for x, y in zip(a[1], b[1]):
                     s.ob('returns-agree', same(x, y), f"one branch yields {show(x)}, the other {show(y)}", repr(k)[:80], (x, y))
-            if (a[0] == 'arr' and b[0] == 'unk') or (b[0] == 'arr' and a[0] == 'unk'):
+            u_ = b if a[0] == 'arr' else a
+            if ((a[0] == 'arr' and b[0] == 'unk') or (b[0] == 'arr' and a[0] == 'unk')) and len(u_) > 1 and str(u_[1]).startswith(('mutated', 'opq ?', 'opq mutated')):
                 # an array on one path, something that was not followed on the other (e.g. an array written through an unrecognised statement)
                 s.ob('returns-agree', None, f"one branch yields an array laid out {' × '.join(show(x) for x in (a if a[0] == 'arr' else b)[1])}, the other branch was not typed ({(b if a[0] == 'arr' else a)[1] if len(b if a[0] == 'arr' else a) > 1 else '?'})", repr(k)[:80])
             return a if a[0] != 'unk' and a != NUM else (b if b[0] != 'unk' else a)
